@@ -6,12 +6,13 @@
    real gate list: BOUNDED INSTANCES, generated obligations, not in this file.
 
    NOT PROVED (named honestly):
-   - qft_ok for all n at matrix level;
+   - qft_ok for all n at MATRIX level (the all-n theorem qft_product_state is about the product-state
+     semantics [pstep] of Model.v, whose rules are trusted);
    - ehrlich_enumerates for all n (here: every 1 <= k < n <= 10, by computation);
    - unary_tree_ok, hw_encoder_ok, binary-encoder amplitudes (angles are acos/atan2/norms of the data;
      covered by the data-level tests of the harness, tolerance 1e-10). *)
 From Coq Require Import List Bool Arith Lia Ring ZArith.
-From QV Require Import C20.Model C20.Proofs.
+From QV Require Import C20.Model C20.Proofs C20.ProofsQFT.
 Import ListNotations.
 
 (* ---------------------------------------------------------------- comp_basis_encoder (all n, all bit strings) *)
@@ -50,6 +51,32 @@ Proof.
   - apply qft_length.
 Qed.
 Print Assumptions qft_structure.
+
+(* ---------------------------------------------------------------- QFT on basis states, ALL n, product-state semantics *)
+(* Model.v [pstep]: textbook action of H / CU1 / SWAP on unentangled registers whose qubits are |b> or
+   (|0> + e^{2 pi i num/2^n}|1>)/sqrt2 -- these rules are a DEFINITION (trusted; validated against the
+   matrices only through the bounded operator instances n <= 5/6 and the numeric test of the harness).
+   Under them, for every n and every basis state |x>:
+     QFT(n, with_swaps=False)|x> = (x)_q (|0> + e^{2 pi i 0.x_q x_{q+1}..x_{n-1}}|1>)/sqrt2       (bit-reversed order)
+     QFT(n)|x>                   = the same with the qubits reversed,
+   and the amplitude of |y> in the latter is 2^{-n/2} e^{2 pi i X Y / 2^n}: the DFT. *)
+Theorem qft_product_state : forall x : bits,
+  let n := length x in
+  (exists f, prun n (qft n false) (qinit x) = Some f /\ forall q, q < n -> f q = QP (qphase n x q)) /\
+  (exists f, prun n (qft n true) (qinit x) = Some f /\ forall q, q < n -> f q = QP (qphase n x (n - 1 - q))).
+Proof. intros x n. split; [apply qft_noswap_product | apply qft_swap_product]. Qed.
+Print Assumptions qft_product_state.
+
+(* sum_q y_q * phase_q  =  X * Y  (mod 2^n), X = qphase n x 0 and Y = qphase n y 0 being the integers
+   with big-endian digits x and y *)
+Theorem qft_product_is_dft : forall n (x y : bits),
+  exists K, qphase n x 0 * qphase n y 0
+            = 2 ^ n * K + list_sum (map (fun q => b2n (nth q y false) * qphase n x (n - 1 - q)) (seq 0 n)).
+Proof. exact dft_phase_congruence. Qed.
+Print Assumptions qft_product_is_dft.
+
+Example qphase_is_value : qphase 4 [true; false; true; true] 0 = 11 /\ qphase 4 [true; false; true; true] 2 = 12.
+Proof. split; reflexivity. Qed.
 
 (* ---------------------------------------------------------------- Ehrlich walk (BOUNDED: n <= 10) *)
 (* for every 1 <= k < n <= 10 the walk started at 1^k 0^(n-k) has binom n k strings, without repetition,
